@@ -77,9 +77,9 @@ SPEC = {
         'pointer-typed arguments/values (strings, buffers, objects, function pointers) are passed as 64-bit symbolic addresses and compared by identity; they are never dereferenced by a forwarder. Names are dereferenced (SimpleString construction): 0..2 symbolic bytes',
         'UT_CRASH / crashOnFailure(true) behaviour of the C failure reporter and real scope creation through mock_scope_c (MockSupport::clone) are not exercised; failure-message formatting renders "#" (vsnprintf stub)'],
     'groups': [{
-        'defines': ['-DKF_C19_1'],
+        'defines': [],
         'name': 'c_api', 'wrapper': 'w19.cpp', 'harness': 'h19.c',
         'config': {'ext': True},
-        'obligations': obs,
+        'obligations': obs + [ob('finding_disabled_support_getter_double', expect='fail', bounds='mocking disabled; actualCall; doubleReturnValue through both interfaces (open known finding KF-C19-1)')],
     }],
 }
